@@ -111,6 +111,12 @@ def base_coverage(run, r, au, extra_rule=''):
             note='FromDfa.rawOf (Lean model of the first half of Graph::new: get_states, numbering, get_state_type, grouping of the 256 byte successors into byte classes, '
                  'end-of-input edges) applied to the hook\'s dump of regex-automata\'s transition table, compared state by state with the graph the code built before its passes; '
                  'with graph_passes_predicted the final graph is predicted from the DFA table alone; a difference alone is not reported (the certificate on the final graph decides)'),
+        utf8_sequences_validated=dict(
+            leaves=sum(len(lean.get('%d UTF8SEQ' % i, '').split(' ')) for i in r['accepted'] if lean.get('%d UTF8SEQ' % i)),
+            exact=sum(lean.get('%d UTF8SEQ' % i, '').split(' ').count('1') for i in r['accepted']),
+            not_exact=[dict(origin=r['corpus'][i].origin, verdicts=lean.get('%d UTF8SEQ' % i, '')) for i in r['accepted'] if '0' in lean.get('%d UTF8SEQ' % i, '').split(' ')][:5],
+            note='Utf8Enc.classExactB (proved: classExactB_sound) on every class of every captured leaf: the byte-range sequences regex-syntax lowers a Unicode class to are exactly '
+                 'the UTF-8 encodings (enc, written out in Lean) of the scalar values of the class; the meaning of a class then does not rest on Utf8Sequences'),
         definitions=len(r['corpus']), definitions_accepted=len(r['accepted']),
         configs=list(r['zoo_out'].keys()), graph_states=nstates,
         stage_cached=r.get('cached', False), stage_key=r['key'],
